@@ -17,7 +17,8 @@ EXPLANATION = (
     "the expander (order of spliced declarations is deterministic); R6 get_key_offset tries the exact path first and "
     "then the path relative to the includer's parent. Behavioural equivalence of split programs is not decided."
     " ADDED LATER: R7 struct types of different modules must not share a name in the LLVM context (known finding); R8 an exported constant's initialiser is copied verbatim before names are resolved (known finding); the linkage table of C03.R2 is shared (private functions and all constants are module-private symbols, so equally named private items of two modules are never merged by the linker)."
-    " ROUNDS 5-6: R2-ALL-IMPORTS-RESOLVED: the resolving loop ranges over every import (sort + partition_point or a filter); the linkage table of C03.R2 is shared.")
+    " ROUNDS 5-6: R2-ALL-IMPORTS-RESOLVED: the resolving loop ranges over every import (sort + partition_point or a filter); the linkage table of C03.R2 is shared."
+    " ROUND 10: C05.R7-SCOPER-VISITS is shared: the types in an imported function head are scoped like those of a function.")
 
 DECL = "alpha::common::Declaration"
 
